@@ -92,6 +92,10 @@ EXPLANATION += (
     ' Round 16: a per-level settings table may name levels the reduced tree no longer has (R-GUARD/lookup-superset-tolerated, rule of C17).'
 )
 
+EXPLANATION += (
+    ' Round 17: the blob that holds the records is never replaced by a function of itself in the front ends (R-SAMEVAL/results-written-as-computed).'
+)
+
 RULE_TEXT = (
     "one obligation per value-identity / provenance / dominance relation "
     "named above; non-trivial when both ends of the relation exist")
